@@ -23,6 +23,10 @@ func verifBool(tag string) bool
 func verifBytes(tag string, max int) []byte
 func verifString(tag string, max int) string
 
+// verifASCII: like verifString, every byte printable ASCII (what gRPC allows in the value of a
+// metadata key that does not end in "-bin", and in any case valid UTF-8).
+func verifASCII(tag string, max int) string
+
 // verifChoice: concrete value in [0,n) explored by forking (shapes, kinds).
 func verifChoice(tag string, n int) int
 
